@@ -116,17 +116,29 @@ impl PState {
 
 impl PayModel {
     /// the C06 inequality on the ghost ledger, for every approved hash
-    fn check_ledger(&self, s: &PState, op: &Op, vios: &mut Vec<Vio>) {
+    /// The update that was just accepted is blamed only if it made the excess larger: an
+    /// imbalance that existed before the hash was approved (the tolerated, uninvoiced routed
+    /// payment of issue 331 followed by an approval for the same hash) is not caused by a later
+    /// update that leaves that hash alone.
+    fn check_ledger(&self, s: &PState, before: &BTreeMap<u64, ChanLedger>, op: &Op, vios: &mut Vec<Vio>) {
         let kind = op_kind(op);
-        for (hash, approved) in s.ghost.approved_msat.iter() {
+        let sums = |chans: &BTreeMap<u64, ChanLedger>, hash: u8| -> (u128, u128) {
             let mut out: u128 = 0;
             let mut inc: u128 = 0;
-            for (_, l) in s.ghost.chans.iter() {
-                out += out_of(l.cur_holder, *hash).max(out_of(l.cur_cp, *hash));
-                inc += inc_of(l.cur_holder, *hash).min(inc_of(l.cur_cp, *hash));
+            for (_, l) in chans.iter() {
+                out += out_of(l.cur_holder, hash).max(out_of(l.cur_cp, hash));
+                inc += inc_of(l.cur_holder, hash).min(inc_of(l.cur_cp, hash));
             }
+            (out, inc)
+        };
+        for (hash, approved) in s.ghost.approved_msat.iter() {
+            let (out, inc) = sums(&s.ghost.chans, *hash);
+            let (out0, inc0) = sums(before, *hash);
             let bound = inc + *approved as u128 + ALLOWANCE_MSAT as u128;
-            if out > bound {
+            let bound0 = inc0 + *approved as u128 + ALLOWANCE_MSAT as u128;
+            let excess = out as i128 - bound as i128;
+            let excess0 = (out0 as i128 - bound0 as i128).max(0);
+            if excess > excess0 {
                 vios.push(Vio {
                     prop: "C06",
                     key: format!("C06:overpaid-in-flight:{}", kind),
@@ -328,13 +340,14 @@ impl Model for PayModel {
                 tag = r.tag();
                 if r.is_ok() {
                     let (nh2, _, _) = s.counters(*d);
+                    let before = s.ghost.chans.clone();
                     let l = s.ghost.chans.get_mut(d).unwrap();
                     if nh2 > nh {
                         if let Some(p) = l.pending_holder.take() {
                             l.cur_holder = Some(p);
                         }
                     }
-                    self.check_ledger(s, op, vios);
+                    self.check_ledger(s, &before, op, vios);
                 }
                 if r.is_panic() {
                     s.dead = true;
@@ -349,9 +362,10 @@ impl Model for PayModel {
                 tag = r.tag();
                 if r.is_ok() {
                     self.check_unbacked(s, op, *pc, vios);
+                    let before = s.ghost.chans.clone();
                     s.ghost.chans.get_mut(d).unwrap().cur_cp = Some(*pc);
                     self.note_seen(s, *pc);
-                    self.check_ledger(s, op, vios);
+                    self.check_ledger(s, &before, op, vios);
                 }
                 if r.is_panic() {
                     s.dead = true;
